@@ -415,69 +415,165 @@ func searchSubsample(c *vkit.Collector, rng *vkit.Rng, budget int, o *oracle) {
 		if rng.Bool() {
 			tol = step * math.Pow(10, rng.Range(-3, 2))
 		}
-		idx := pl.SubsampleVertices(s1.Angle(tol))
-		ct := math.Max(tol, 0)
-		c.Eval(fmt.Sprintf("S.sub:%d:%g:%d", n, tol, k), len(idx) < n && n > 2)
-		pts := [][]float64{}
-		for _, p := range pl {
-			pts = append(pts, []float64{p.X, p.Y, p.Z})
+		checkSubsample(c, o, pl, tol, fmt.Sprintf("S.sub:%d:%g:%d", n, tol, k))
+	}
+	searchSubsampleUlps(c, rng, budget, o)
+}
+
+// checkSubsample evaluates the property's sentence about SubsampleVertices on one polyline
+func checkSubsample(c *vkit.Collector, o *oracle, pl s2.Polyline, tol float64, key string) []int {
+	n := len(pl)
+	idx := pl.SubsampleVertices(s1.Angle(tol))
+	ct := math.Max(tol, 0)
+	c.Eval(key, len(idx) < n && n > 2 || n == 2)
+	pts := [][]float64{}
+	for _, p := range pl {
+		pts = append(pts, []float64{p.X, p.Y, p.Z})
+	}
+	rep := map[string]interface{}{"polyline": pts, "tolerance": tol, "result": idx}
+	if n == 0 {
+		if len(idx) != 0 {
+			c.Violate("Polyline.SubsampleVertices.shape", "non-empty result for an empty polyline", rep)
 		}
-		rep := map[string]interface{}{"polyline": pts, "tolerance": tol, "result": idx}
-		if n == 0 {
-			if len(idx) != 0 {
-				c.Violate("Polyline.SubsampleVertices.shape", "non-empty result for an empty polyline", rep)
-			}
-			continue
+		return idx
+	}
+	bad := ""
+	if len(idx) == 0 || idx[0] != 0 {
+		bad = "result does not start with index 0"
+	}
+	for i := 0; bad == "" && i+1 < len(idx); i++ {
+		if idx[i+1] <= idx[i] || idx[i+1] >= n {
+			bad = "indices not strictly increasing within range"
+		} else if pl[idx[i]] == pl[idx[i+1]] {
+			bad = "two consecutive emitted vertices are equal"
 		}
-		bad := ""
-		if len(idx) == 0 || idx[0] != 0 {
-			bad = "result does not start with index 0"
+	}
+	if bad == "" {
+		e := idx[len(idx)-1]
+		if e != n-1 && pl[e] != pl[n-1] {
+			bad = "last vertex not preserved"
 		}
-		for i := 0; bad == "" && i+1 < len(idx); i++ {
-			if idx[i+1] <= idx[i] || idx[i+1] >= n {
-				bad = "indices not strictly increasing within range"
-			} else if pl[idx[i]] == pl[idx[i+1]] {
-				bad = "two consecutive emitted vertices are equal"
-			}
+		if pl[0] != pl[n-1] && len(idx) < 2 {
+			bad = "distinct first and last vertices are not both preserved"
 		}
-		if bad == "" {
-			e := idx[len(idx)-1]
-			if e != n-1 && pl[e] != pl[n-1] {
-				bad = "last vertex not preserved"
-			}
-			if pl[0] != pl[n-1] && len(idx) < 2 {
-				bad = "distinct first and last vertices are not both preserved"
-			}
+	}
+	if bad != "" {
+		c.Violate("Polyline.SubsampleVertices.shape", bad, rep)
+		return idx
+	}
+	if tol <= 0 && n > 0 {
+		// tolerance clamped at 0: only exact duplicates / collinear-in-order vertices may go; checked by the bound below with tol 0
+	}
+	// every dropped vertex within the tolerance of the simplified edge it belongs to
+	bound := ct*(1+tolRel) + tolAbs
+	segEnd := append(append([]int{}, idx...), n-1)
+	for s := 0; s+1 < len(segEnd); s++ {
+		i0, i1 := segEnd[s], segEnd[s+1]
+		e1 := i1
+		if s+2 == len(segEnd) { // the tail after the last emitted vertex collapses onto it
+			e1 = i0
 		}
-		if bad != "" {
-			c.Violate("Polyline.SubsampleVertices.shape", bad, rep)
-			continue
-		}
-		if tol <= 0 && n > 0 {
-			// tolerance clamped at 0: only exact duplicates / collinear-in-order vertices may go; checked by the bound below with tol 0
-		}
-		// every dropped vertex within the tolerance of the simplified edge it belongs to
-		bound := ct*(1+tolRel) + tolAbs
-		segEnd := append(append([]int{}, idx...), n-1)
-		for s := 0; s+1 < len(segEnd); s++ {
-			i0, i1 := segEnd[s], segEnd[s+1]
-			e1 := i1
-			if s+2 == len(segEnd) { // the tail after the last emitted vertex collapses onto it
-				e1 = i0
-			}
-			for v := i0 + 1; v < i1; v++ {
-				d := distEdge(pl[v].Vector, pl[i0].Vector, pl[e1].Vector)
-				d2 := float64(s2.DistanceFromSegment(pl[v], pl[i0], pl[e1]))
-				// s2.DistanceFromSegment goes through chord angles (absolute error ~1.5e-8); it only nominates
-				if d > bound*0.98 || d2 > bound*1.05+5e-8 {
-					r := map[string]interface{}{"polyline": pts, "tolerance": tol, "result": idx, "dropped": v, "segment": []int{i0, e1}, "float64_distance": d, "s2_DistanceFromSegment": d2}
-					o.add(pending{req: map[string]interface{}{"t": "ptedge", "p": hv(pl[v]), "edges": hedges([][2]s2.Point{{pl[i0], pl[e1]}})},
-						bound: bound, kind: "Polyline.SubsampleVertices.tolerance",
-						desc: fmt.Sprintf("dropped vertex %d is farther than the tolerance %g from the simplified edge (%d,%d)", v, ct, i0, e1), replay: r, approx: d, exceedsFloat: d > bound})
-				}
+		for v := i0 + 1; v < i1; v++ {
+			d := distEdge(pl[v].Vector, pl[i0].Vector, pl[e1].Vector)
+			d2 := float64(s2.DistanceFromSegment(pl[v], pl[i0], pl[e1]))
+			// s2.DistanceFromSegment goes through chord angles (absolute error ~1.5e-8); it only nominates
+			if d > bound*0.98 || d2 > bound*1.05+5e-8 {
+				r := map[string]interface{}{"polyline": pts, "tolerance": tol, "result": idx, "dropped": v, "segment": []int{i0, e1}, "float64_distance": d, "s2_DistanceFromSegment": d2}
+				o.add(pending{req: map[string]interface{}{"t": "ptedge", "p": hv(pl[v]), "edges": hedges([][2]s2.Point{{pl[i0], pl[e1]}})},
+					bound: bound, kind: "Polyline.SubsampleVertices.tolerance",
+					desc: fmt.Sprintf("dropped vertex %d is farther than the tolerance %g from the simplified edge (%d,%d)", v, ct, i0, e1), replay: r, approx: d, exceedsFloat: d > bound})
 			}
 		}
 	}
+	return idx
+}
+
+// A point a few ulps (1e-16..1e-15 rad) from p: distinct for Go's ==, equal for Point.ApproxEqual.
+func ulpNeighbour(rng *vkit.Rng, p s2.Point) s2.Point {
+	q := p
+	for tries := 0; tries < 8 && q == p; tries++ {
+		bump := func(x float64) float64 {
+			k := 1 + rng.Intn(8)
+			if rng.Bool() {
+				k = -k
+			}
+			if math.Abs(x) < 0.25 { // at a pole / on the antimeridian the small coordinate moves absolutely
+				return x + float64(k)*1.1e-16
+			}
+			return vkit.Ulps(x, k)
+		}
+		switch rng.Intn(4) {
+		case 0:
+			q.X = bump(p.X)
+		case 1:
+			q.Y = bump(p.Y)
+		case 2:
+			q.Z = bump(p.Z)
+		default:
+			q.X, q.Y = bump(p.X), bump(p.Y)
+		}
+	}
+	return q
+}
+
+// searchSubsampleUlps: polylines whose first, middle or last step is only 1-8 ulps long (3e-16..1e-15 rad),
+// incl. two-vertex polylines, at the poles, on the antimeridian and after back-tracks; tolerances 1e-13..0.5 deg.
+// Such a vertex is a different point (Go ==), so when it is the last one it must be kept.
+func searchSubsampleUlps(c *vkit.Collector, rng *vkit.Rng, budget int, o *oracle) {
+	for k := 0; k < 160*budget; k++ {
+		pl, tol := ulpPolyline(rng, c)
+		checkSubsample(c, o, pl, tol, fmt.Sprintf("S.subulp:%d:%g:%d", len(pl), tol, k))
+	}
+}
+
+func ulpPolyline(rng *vkit.Rng, c *vkit.Collector) (s2.Polyline, float64) {
+	var a s2.Point
+	switch rng.Intn(5) {
+	case 0:
+		c.Class("polyline:ulp-step@pole")
+		a = s2.Point{Vector: r3.Vector{X: 0, Y: 0, Z: rng.Pick([]float64{1, -1})}}
+	case 1:
+		c.Class("polyline:ulp-step@antimeridian")
+		lat := rng.Range(-1.5, 1.5)
+		a = s2.Point{Vector: r3.Vector{X: -math.Cos(lat), Y: rng.Pick([]float64{0, math.Copysign(0, -1), 1.2e-16, -1.2e-16}), Z: math.Sin(lat)}}
+	default:
+		c.Class("polyline:ulp-step")
+		a = randPoint(rng)
+	}
+	step := math.Pow(10, -rng.Range(0.5, 6))
+	b := nearPoint(rng, a, step*rng.Range(0.3, 1))
+	d := nearPoint(rng, b, step*rng.Range(0.3, 1))
+	e := nearPoint(rng, d, step*rng.Range(0.3, 1))
+	u := func(p s2.Point) s2.Point { return ulpNeighbour(rng, p) }
+	var pl s2.Polyline
+	switch rng.Intn(10) {
+	case 0:
+		pl = s2.Polyline{a, u(a)} // two vertices a few ulps apart
+	case 1:
+		pl = s2.Polyline{b, d, a, u(a)} // tiny last step after a corner (at the pole / antimeridian when a is)
+	case 2:
+		pl = s2.Polyline{a, b, u(a)} // back-track ending a few ulps from the start
+	case 3:
+		pl = s2.Polyline{b, a, d, u(a)} // back-track to an ulp-neighbour of an earlier vertex, at the end
+	case 4:
+		pl = s2.Polyline{a, u(a), b, d} // tiny first step
+	case 5:
+		pl = s2.Polyline{b, a, u(a), d, e} // tiny step in the middle
+	case 6:
+		a2 := u(a)
+		pl = s2.Polyline{a, a2, u(a2), u(a)} // nothing but ulp steps
+	case 7:
+		pl = s2.Polyline{b, d, e, a, a, u(a)} // exact duplicate, then an ulp step, at the end
+	case 8:
+		pl = s2.Polyline{a, u(a), a} // closes exactly; the middle vertex differs
+	default:
+		pl = s2.Polyline{d, b, a, u(a), u(a)}
+	}
+	tol := math.Pow(10, rng.Range(-13, math.Log10(0.5*math.Pi/180)))
+	if rng.Intn(6) == 0 {
+		tol = rng.Pick([]float64{1e-13, 0.5 * math.Pi / 180, 0, 1e-15, 1})
+	}
+	return pl, tol
 }
 
 func searchSnap(c *vkit.Collector, rng *vkit.Rng, budget int, o *oracle) {
